@@ -57,22 +57,37 @@ TraceAsyncThreshold == IsEvent("AsyncThreshold") /\ AsyncThreshold /\ ObsOK
 TraceBlobCacheStall == IsEvent("BlobCacheStall") /\ BlobCacheStall /\ Rq \subseteq Hull(Cover(psize) \ fetched) /\ ObsOK
 TraceBlobCache == IsEvent("BlobCache") /\ Ev.r = Ev.want /\ BlobCacheG(Ev.r, Got, Rq) /\ ObsOK
 TraceReaderCache == IsEvent("ReaderCache") /\ Ev.r = Ev.want /\ ReaderCacheG(Ev.r, Got, L2(MarkFull(lst, RangeFiles(psize))), Rq) /\ ObsOK
-TracePrefetchEnd == IsEvent("PrefetchEnd") /\ PrefetchEnd /\ Ev.res = pfres /\ Ev.p = runner /\ ObsOK
+TracePrefetchEnd == IsEvent("PrefetchEnd") /\ PrefetchEndG(L2(IF BgResumes(prio > 0) THEN BgLocal ELSE lst)) /\ Ev.res = pfres /\ Ev.p = runner /\ ObsOK
 TracePrefetchReturn == IsEvent("PrefetchReturn") /\ PrefetchReturn(Ev.p) /\ Ev.res = "ok" /\ ObsOK
 TraceWaitCall == IsEvent("WaitCall") /\ WaitCall(Ev.w) /\ ObsOK
 TraceWaitReturn == IsEvent("WaitReturn") /\ WaitReturn(Ev.w) /\ ObsOK
 TraceWaitTimeout == IsEvent("WaitTimeout") /\ WaitTimeout(Ev.w) /\ ObsOK
 TraceBgCall == IsEvent("BgCall") /\ BgCall(Ev.b) /\ last'.won = Ev.won /\ ObsOK
-TraceBgStall == IsEvent("BgStall") /\ BgStall /\ ObsOK
+TraceBgStall == IsEvent("BgStall") /\ BgStallG(L2(BgLocal)) /\ ObsOK
 TraceBgFinish == IsEvent("BgFinish") /\ Ev.r = Ev.want /\ BgFinishG(Ev.r, Got, L2(MarkFull(lst, BgFiles)), Rq) /\ Ev.b = brunner /\ ObsOK
 TraceBgReturn == IsEvent("BgReturn") /\ BgReturn(Ev.b) /\ Ev.res = "ok" /\ ObsOK
 TracePrioBegin == IsEvent("PrioBegin") /\ PrioBegin /\ ObsOK
-TracePrioEnd == IsEvent("PrioEnd") /\ PrioEnd /\ ObsOK
+TracePrioEnd == IsEvent("PrioEnd") /\ PrioEndG(L2(IF BgResumes(PfPrio) THEN BgLocal ELSE lst)) /\ ObsOK
 TraceRead == IsEvent("Read") /\ ReadG(Ev.f, Ev.ok, Got, L2(IF Ev.ok THEN MarkFull(lst, {Ev.f}) ELSE lst), Rq) /\ ObsOK
 TraceRegistryOff == IsEvent("RegistryOff") /\ RegistryOff /\ ObsOK
 TraceRegistryOn == IsEvent("RegistryOn") /\ RegistryOn /\ ObsOK
 
+\* Not an event: while a background fetch is under way (its requests held back, or cancelled by a prioritized task)
+\* its goroutines keep committing chunks they can serve without the registry, at their own pace. The base spec
+\* applies all of that at BgStall / resume (BgLocal); here the part that shows up late is taken over from the next
+\* observation, if it is monotone and confined to the files background fetch caches.
+QuietEvents == {"WaitCall", "WaitReturn", "WaitTimeout", "PrefetchCall", "PrefetchReturn", "Range", "AsyncThreshold",
+                "BlobCacheStall", "BlobCache", "PrioBegin", "BgCall", "BgReturn", "RegistryOff", "RegistryOn"}
+TraceBgProgress ==
+    /\ l <= Len(TraceLog) /\ UNCHANGED l
+    /\ sc.haslst /\ bg \in {"stalled", "suspended"}
+    /\ Ev.ev \in QuietEvents
+    /\ Ev.obs.lst # lst /\ Monotone(Ev.obs.lst, BgFiles)
+    /\ lst' = Ev.obs.lst
+    /\ UNCHANGED <<sc, pc, runner, pf, pfres, psize, pinfo, waiter, wc, bc, brunner, bg, bgres, prio, fetched, reg, last>>
+
 TraceNext ==
+    \/ TraceBgProgress
     \/ TraceReset \/ TracePrefetchCall \/ TraceRange \/ TraceAsyncThreshold \/ TraceBlobCacheStall \/ TraceBlobCache
     \/ TraceReaderCache \/ TracePrefetchEnd \/ TracePrefetchReturn \/ TraceWaitCall \/ TraceWaitReturn \/ TraceWaitTimeout
     \/ TraceBgCall \/ TraceBgStall \/ TraceBgFinish \/ TraceBgReturn \/ TracePrioBegin \/ TracePrioEnd \/ TraceRead
